@@ -13,20 +13,20 @@ CLAIMED = {
          "flush, compaction, restart, readers (seek/end/direction), history log, snapshot policy and concurrency are outside the claim; 1-byte keys/values, at most 3 bulks", "DESIGN.md §4 C10"),
  "C03": ("hash-tree crash consistency on the real AHtree code: for every crash point between the appendable operations of a workload of n appends (sync thresholds 1..2/3, optional explicit syncs) and every combination of which unsynced writes reached each of the three logs (plus a torn last commit entry), reopening succeeds, keeps every entry covered by a completed sync and serves only roots/payloads of the appended sequence",
          "the hash tree plus the write ordering of ImmuStore.sync (value logs, tx log and hash tree are flushed and synced before any commit-log entry is appended, and the commit log is synced before the synced frontier moves), decided on a recording appendable; recovery of the whole store (store.OpenWith), the index, repeated crashes and concurrent committers are outside the claim; crash model and granularity are listed in the evidence", "DESIGN.md §4 C03"),
- "C04": ("what reaches the index: for every bulk of committed transactions within the bounds (bulk size, entries per tx, symbolic keys and non-indexable flags) the plain indexer hands the tree exactly one (key, tx id) per indexable entry, in order, with intact key content, and only advances the logical time when nothing is indexable",
-         "tx reader, semaphore, watchers and the tree are stubs/recorders; mapped and injective indexes, deleted/expired filters, the asynchronous indexer and restart are outside the claim", "DESIGN.md §4 C04"),
+ "C04": ("what reaches the index: for every bulk of committed transactions within the bounds (bulk size, entries per tx, symbolic keys and non-indexable flags) the plain indexer hands the tree exactly one (key, tx id) per indexable entry, in order, with intact key content, and only advances the logical time when nothing is indexable; scans over a snapshot (real NewKeyReader/Read/ReadBetween with the deleted/expired filters, offset, tx range) return exactly the matching live keys in order; History (store and snapshot) numbers every version by its position in commit order on every page",
+         "tx reader, semaphore, watchers and the tree (tree reader / tree history under the scan and history harnesses) are stubs/recorders; mapped and injective indexes, seek/end/prefix bounds, pkg/database wrappers, the asynchronous indexer and restart are outside the claim", "DESIGN.md §4 C04"),
  "C06": ("the sequential mechanism behind conditional writes only: a write carrying preconditions (must exist / must not exist / not modified after tx) is admitted iff every precondition holds on the index state it is evaluated on, for every symbolic state and precondition list within the bounds; malformed preconditions are rejected",
          "linearizability of concurrent histories is NOT decided (no schedules); the index is a symbolic model behind stubs of the KeyIndex methods; wait gating of reads/writes not covered yet", "DESIGN.md §4 C06"),
  "C05": ("validation soundness of MVCC read-sets for point reads and prefix reads in a two-phase sequential model: if commit-time validation passes, every recorded read re-evaluated on the commit-time state yields what the transaction observed; no spurious conflict when nothing changed",
          "the index under the snapshot is a symbolic 3-key model behind stubs of the Snapshot methods; range readers, prefix fingerprints, real interleavings and the locking discipline are outside the claim", "DESIGN.md §4 C05"),
- "C13": ("the savepoint/rollback write-set kernel on a real store transaction: ROLLBACK TO SAVEPOINT must leave the pending write set and the bookkeeping as they were at the savepoint; Cancel closes the store transaction and refuses commit/writes; symbolic keys and values, up to 2+2 writes",
-         "only SQLTx.Savepoint/RollbackToSavepoint/ReleaseSavepoint/Cancel over store.OngoingTx; session isolation, statement atomicity, DDL and pgwire are outside the claim; the write-set part is a recorded known finding (twin harness covers the rest)", "DESIGN.md §4 C13"),
+ "C13": ("the savepoint/rollback write-set kernel on a real store transaction: ROLLBACK TO SAVEPOINT must leave the pending write set and the bookkeeping as they were at the savepoint; Cancel closes the store transaction and refuses commit/writes; symbolic keys and values, up to 2+2 writes; read-your-own-writes of the store transaction through a plain and a mapped index (every read returns the last own write); DDL on a transaction's catalog clone never changes the engine's cached catalog",
+         "SQLTx.Savepoint/RollbackToSavepoint/ReleaseSavepoint/Cancel over store.OngoingTx, OngoingTx.set/Get over recorder tree snapshots, Catalog.Clone + the DDL mutators; interleavings of sessions, statement atomicity end to end and pgwire are outside the claim; the write-set part is a recorded known finding (twin harness covers the rest)", "DESIGN.md §4 C13"),
  "C14": ("tombstone safety of value-log truncation: for every history of n transactions whose values landed in any value log at any offsets (out of id order, empty first values), and every cut point, TruncateUptoTx never discards beyond the first value of a transaction at or after the cut, and never discards with embedded values",
          "the transaction table is served by a stub of readTxOffsetAt under the stated placement model; chunk deletion is covered by C17's discard step; truncation racing with writers, restart and the SQL catalog copy are outside the claim", "DESIGN.md §4 C14"),
- "C02": ("one inductive step of the commit frontier from an arbitrary valid pre-state: the precommit ring buffer is a FIFO; mayCommit writes commit-log entries only at committedTxID*entrySize and moves the frontier forward exactly to the allowance; DiscardPrecommittedTxsSince never touches committed ids, the commit log or the tx log; AllowCommitUpto is monotone and bounded by the precommit frontier",
+ "C02": ("one inductive step of the commit frontier from an arbitrary valid pre-state: the precommit ring buffer is a FIFO; mayCommit writes commit-log entries only at committedTxID*entrySize and moves the frontier forward exactly to the allowance; DiscardPrecommittedTxsSince never touches committed ids, the commit log or the tx log; performPrecommit (ID/PrevAlh assignment, record placed exactly at the old frontier, nothing below it changed, record readable back by Tx.readFrom as the same transaction, embedded values where the entries point); AllowCommitUpto is monotone and bounded by the precommit frontier",
          "sequential single steps only: no interleavings of concurrent committers, no restart, no chunk rotation; logs are in-memory appendables; watcher hubs and the hash tree are recorder stubs; the Alh chaining itself is decided under C01/C09", "DESIGN.md §4 C02"),
- "C18": ("the permission decision kernel: getDBFromCtx, HasPermissionForMethod, IsMaintenanceMethod and User.WhichPermission executed for every method name of the permission table crossed with every option combination, database selection, sysadmin flag and every 32-bit permission code: a database is handed out only when the reviewed classification allows it",
-         "session/token validation is a stub returning a symbolic (database, user) or an error; which name each RPC handler passes to the kernel, session lifecycle and the pgsql front-end are outside the claim; the classification table in the harness is the oracle", "DESIGN.md §4 C18"),
+ "C18": ("the permission decision kernel: getDBFromCtx, HasPermissionForMethod, IsMaintenanceMethod and User.WhichPermission executed for every method name of the permission table crossed with every option combination, database selection, sysadmin flag and every 32-bit permission code: a database is handed out only when the reviewed classification allows it (the system database never for a writing method, incl. the document API); a user whose record is changed (permission, SQL privileges, activation, password) loses every cached token login whatever their number, and the session manager is told to close its sessions",
+         "session/token validation is a stub returning a symbolic (database, user) or an error; which name each RPC handler passes to the kernel, session expiry and the pgsql front-end are outside the claim; user storage, bcrypt and token keys are stubs in the user-change harness; the classification table in the harness is the oracle", "DESIGN.md §4 C18"),
  "C07": ("export/replicate framing: ReplicateTx(ExportTx(tx)) hands precommit the same header and entry list for every symbolic transaction within the size bounds (headers v0/v1, all metadata combinations, values present or truncated)",
          "tx reader / value reader and the write-only transaction are harness stubs; replica-side validation, ack allowance, delivery schedules and the replicator are outside the claim for now", "DESIGN.md §4 C07"),
  "C17": ("the multi-file appendable refines one growable byte array over bounded sequences of append / set-offset / read / discard with symbolic payloads, lengths and offsets, for every chunk-boundary alignment and cache (max-open-files) size within the bounds",
